@@ -65,10 +65,11 @@ def tips_by_taxon(m, dates):
     return [(nd.index, leaf[int(nd.taxon.label[1:])]) for nd in m.tree.leaf_node_iter()]
 
 
-def leaf_tol(h):
-    if float(torch.tensor(h, dtype=torch.float32).item()) == h:
+def leaf_tol(h, dtype=torch.float64):
+    """sampling_times carry the dtype of the heights: exact in double, half a float32 ulp in single"""
+    if dtype == torch.float64 or float(torch.tensor(h, dtype=torch.float32).item()) == h:
         return 0.0
-    return 1e-6 + 2.0 ** -23 * abs(h)
+    return 2.0 ** -24 * abs(h) + 1e-45
 
 
 def property_on(m, dates, tol_scale=1.0):
@@ -81,7 +82,7 @@ def property_on(m, dates, tol_scale=1.0):
     eps = 2.2e-16 if m.node_heights.dtype == torch.float64 else 1.2e-7
     slack = 8 * eps * S
     for idx, want in tips_by_taxon(m, dates):
-        if abs(H[idx] - want) > max(leaf_tol(want), 0.0) * tol_scale + (0 if tol_scale == 1.0 else 1e-6):
+        if abs(H[idx] - want) > leaf_tol(want, m.node_heights.dtype):
             bad.append(("tips", f"the tip carrying taxon with sampling time {want!r} sits at height {H[idx]!r} (node {idx})"))
             break
     for p, c in G.dendropy_edges(m):
@@ -105,7 +106,7 @@ def observables(m):
     out = {"kind": KIND_OF.get(type(getattr(m, "transform", None)).__name__, "none"),
            "H": H[..., perm], "bl": bl[..., perm[:-1]],
            "s": m.sampling_times.detach().clone()}
-    if hasattr(m, "transform"):
+    if hasattr(m, "transform") and callable(m):
         out["ld"] = m().detach().clone()
     return out
 
@@ -198,6 +199,30 @@ def reparam_routes(t, dates, x, kind, rng, tmpdir):
         return R.from_json(js, {})
 
     routes.append(("json_factory", 1e-5, factory))  # json_factory parameters carry no dtype: default float32
+
+    def flexible(x_ref):
+        # FlexibleTimeTreeModel whose heights are a TransformedParameter over a node-height transform of that same tree:
+        # must give the heights / branch lengths of the constructor route to the last bit
+        def build():
+            from torchtree.evolution.tree_model_flexible import FlexibleTimeTreeModel
+
+            r = random.Random(rng.randrange(10 ** 6))
+            dic = {}
+            cls_, arg = (("GeneralNodeHeightTransform", "tree") if kind == "ratio" else ("DifferenceNodeHeightTransform", "tree_model"))
+            xj = pjson("heights.x", list(x))
+            if x_ref:
+                dic["heights.x"] = Parameter.from_json(xj, {})
+                xj = "heights.x"
+            js = {"id": "tree", "type": "FlexibleTimeTreeModel", "newick": G.newick(t), "taxa": taxa_json(dates, r),
+                  "internal_heights": shuffled({"id": "heights", "type": "TransformedParameter",
+                                                "transform": "torchtree.evolution.tree_height_transform." + cls_,
+                                                "parameters": {arg: "tree"}, "x": xj}, r)}
+            m = FlexibleTimeTreeModel.from_json(shuffled(js, r), dic)
+            m.transform = dic["heights"].transform  # handle for the harness only
+            return m
+        return build
+
+    routes += [("flexible[x=inline]", 0.0, flexible(False)), ("flexible[x=ref]", 0.0, flexible(True))]
     return routes
 
 
@@ -372,9 +397,10 @@ def section_dtypes(ck, rng, record):
                             table[f"default={dflt},param={xd},{kind}"] = {
                                 "sampling_times": str(m.sampling_times.dtype), "node_heights": str(H.dtype),
                                 "branch_lengths": str(bl.dtype), "inverse": str(inv.dtype), "log_det": str(ld.dtype)}
-                            lossy = [k for k, v in (("node_heights", H), ("branch_lengths", bl), ("inverse", inv), ("log_det", ld))
-                                     if xd == torch.float64 and v.dtype != torch.float64]
-                            probs = [f"{k} comes back in {table[f'default={dflt},param={xd},{kind}'][k]} for float64 parameters"
+                            lossy = [k for k, v in (("sampling_times", m.sampling_times), ("node_heights", H), ("branch_lengths", bl),
+                                                    ("inverse", inv), ("log_det", ld))
+                                     if v.dtype != xd]  # every observable carries the dtype of the parameters
+                            probs = [f"{k} comes back in {table[f'default={dflt},param={xd},{kind}'][k]} for {xd} parameters"
                                      for k in lossy]
                             tol = 1e-10 if xd == torch.float64 else 2e-5
                             refm_x = torch.tensor(x, dtype=DT)
@@ -385,8 +411,8 @@ def section_dtypes(ck, rng, record):
                             torch.set_default_dtype(torch.float64)
                             ref = G.make_reparam(t, dates, torch.tensor(x, dtype=DT), kind)
                             torch.set_default_dtype(dflt)
-                            if not torch.allclose(H.to(DT), ref.node_heights, rtol=2e-6 if (xd == torch.float64) else 2e-5,
-                                                  atol=2e-6 if (xd == torch.float64) else 2e-5):
+                            if not torch.allclose(H.to(DT), ref.node_heights, rtol=1e-13 if (xd == torch.float64) else 2e-5,
+                                                  atol=1e-13 if (xd == torch.float64) else 2e-5):
                                 probs.append(f"node_heights {H.tolist()} but {ref.node_heights.tolist()} with float64 everywhere")
                         except Exception as e:
                             probs = [f"raises {type(e).__name__}: {str(e)[:140]}"]
